@@ -1,0 +1,36 @@
+//go:build verif
+
+// Contracts for gvc (/verif). Comment-only: this file adds no declarations.
+
+package glob
+
+// C23: matching one path component. Deductive part: the matcher never panics
+// (slice bounds, type assertions, the two explicit panics) and only ever
+// consumes a prefix of the name. Agreement with the declarative meaning of
+// the pattern is a bounded stand-in.
+
+// a segment that matchFixedLength accepts: a literal or a "?" wildcard
+//@ spec fn fixedseg(s Segment) bool = istype(s, Literal) || (istype(s, Wild) && s.(Wild).Type == Question)
+// a segment of one path component: anything but a slash
+//@ spec fn compseg(s Segment) bool = istype(s, Literal) || istype(s, Wild)
+
+//@ func Wild.Match
+//@   trusted
+//@   pure
+
+//@ func matchFixedLength
+//@   props C23
+//@   results ok rest
+//@   requires forall k int :: 0 <= k && k < len(segs) ==> fixedseg(segs[k])
+//@   loop 1 invariant len(name) <= len(old(name)) && name === old(name)[len(old(name)) - len(name):]
+//@   ensures ok ==> len(rest) <= len(name) && rest === name[len(name) - len(rest):]
+
+//@ func matchElement
+//@   props C23
+//@   requires forall k int :: 0 <= k && k < len(segs) ==> compseg(segs[k])
+//@   loop 1 invariant forall k int :: 0 <= k && k < len(segs) ==> compseg(segs[k])
+//@   loop 2 invariant 1 <= i && i <= len(segs)
+//@   loop 2 invariant forall k int :: 1 <= k && k < i ==> fixedseg(segs[k])
+//@   loop 3 invariant 0 <= i && i <= len(name)
+//@   loop 3 invariant forall k int :: 0 <= k && k < len(chunk) ==> fixedseg(chunk[k])
+//@   loop 3 invariant forall k int :: 0 <= k && k < len(segs) ==> compseg(segs[k])
